@@ -1410,6 +1410,56 @@ static void part_opt(void) {
 	}
 }
 
+/* the blocking reader hands the upper layer exactly the one PDU the server wrote, whatever its shape (empty payload, one byte, the
+ * 255/256 and 65535 boundaries, both header forms) and however the bytes arrive */
+static vbuf RAWPDU;
+static void raw_handler(const unsigned char *req, size_t n, vbuf *resp, void *user) { (void)req; (void)n; (void)user; vb_putvb(resp, &RAWPDU); }
+static size_t g_rawchunk;
+static long raw_recv(sn_conn *c, size_t avail, size_t cap) {
+	size_t k = avail < cap ? avail : cap;
+	if (g_rawchunk && k > g_rawchunk) k = g_rawchunk;
+	if (k == 0) return (avail == 0 && c->peer_closed) ? 0 : -EAGAIN;
+	return (long)k;
+}
+static void part_blkraw(void) {
+	int k, chunk;
+	static const size_t CH[] = {0, 1, 3, 1000};
+	for (k = 0; k < NKIND; k++) for (chunk = 0; chunk < 4; chunk++) {
+		KSI_CTX *ctx;
+		KSI_DataHash *hsh = NULL;
+		KSI_AggregationReq *areq = NULL;
+		KSI_RequestHandle *rh = NULL;
+		const unsigned char *raw = NULL;
+		size_t rl = 0, off;
+		int res;
+		if (!CASE_BEGIN("blkraw:k%d:chunk%zu", k, CH[chunk])) continue;
+		env_install();
+		srv_install(raw_handler, NULL);
+		sn.on_recv = raw_recv; sn.on_send = h_send; sn.on_connect = h_connect; sn.on_poll = h_poll; sn.after_send = h_after_send;
+		g_rawchunk = CH[chunk];
+		vb_reset(&RAWPDU);
+		build_pdu(&RAWPDU, k, 0);
+		(void)off;
+		ctx = ku_ctx();
+		hook_budget = 400000;
+		KSI_CTX_setAggregator(ctx, URI, LOGIN, KEY);
+		KSI_DataHash_fromImprint(ctx, IMPR[0], IMPRLEN, &hsh);
+		if (KSI_createSignRequest(ctx, hsh, 0, &areq) != KSI_OK) vf_harness_error("createSignRequest");
+		res = KSI_sendSignRequest(ctx, areq, &rh);
+		if (res == KSI_OK) res = KSI_RequestHandle_perform(rh);
+		if (res == KSI_OK) res = KSI_RequestHandle_getResponse(rh, &raw, &rl);
+		if (res != KSI_OK) vf_fail("blocking-pdu-refused", "blocking client: a complete PDU of %zu bytes (%s header, payload %zu) delivered in chunks of %zu was not handed up: 0x%x", RAWPDU.n, KIND[k].is16 ? "4-byte" : "2-byte", KIND[k].len, CH[chunk], res);
+		else if (rl != RAWPDU.n || memcmp(raw, RAWPDU.p, rl) != 0) vf_fail("blocking-pdu-differs", "blocking client: the PDU handed up has %zu bytes, the server wrote %zu", rl, RAWPDU.n);
+		else vf_outcome("blkraw:%s", KIND[k].len == 0 ? "empty-payload" : KIND[k].len >= 65535 ? "largest" : "other");
+		KSI_RequestHandle_free(rh);
+		KSI_AggregationReq_free(areq);
+		KSI_DataHash_free(hsh);
+		KSI_CTX_free(ctx);
+		count_env(1);
+		CASE_END(1);
+	}
+}
+
 static void run(void) {
 	const char *only = getenv("C14_PART");     /* debugging aid: run one part only */
 	imprints_init();
@@ -1420,6 +1470,7 @@ static void run(void) {
 	PART("flt", part_flt);
 	PART("blk", part_blk);
 	PART("opt", part_opt);
+	PART("blkraw", part_blkraw);
 	PART("e2e", part_e2e);
 	PART("txf", part_txf);
 	PART("txa", part_txa);
